@@ -1,5 +1,6 @@
 import Driver.Crdt
 import AmVerif.Model.Cursor
+import AmVerif.Model.MarksFast
 /- Extension of the `crdt` driver engine: commands `crdt.rt.*` on the same per-case state
    (rich text: marks, spans, cursors, text edits in documents that contain marks). -/
 namespace Driver.CrdtRich
@@ -32,12 +33,14 @@ def opsFor (st : State) (r : String) (heads : Option String) : Option (List Op Ã
 /-- element widths: grapheme clusters count one per element (`gOne`, see Model/TextWidth) -/
 def wfOf (e : Enc) (ty : ObjType) : Op â†’ Nat := ow gOne e (ty == .text)
 
-def readLines (e : Enc) (ops : List Op) (obj : ObjId) : List String :=
+def readLines (e : Enc) (clocked : Bool) (ops : List Op) (obj : ObjId) : List String :=
   match objType ops obj with
   | none => ["err objid"]
-  | some _ =>
+  | some ty =>
     let len := lengthWith gOne e ops obj
-    let marks := marksOf (wfOf e .text) ops obj
+    -- `Automerge::calculate_marks`: a present-time read of a text object takes the indexed path
+    -- (`calculate_marks_fast`), a clock-scoped read or a list the walk (`calculate_marks_slow`)
+    let marks := if !clocked && ty == .text then marksOfFast (wfOf e .text) ops obj else marksOf (wfOf e .text) ops obj
     let gm := (List.range (len + 1)).map (fun i => showSet (getMarksAt (wfOf e .text) ops obj i))
     let spans := spansOf (widthWith gOne e) ops obj
     [ s!"len {len}",
@@ -143,7 +146,7 @@ def exec (st : State) (toks : List String) : State Ã— List String :=
       pure (l, res, false))
   | "crdt.rt.read" :: r :: obj :: rest =>
     match parseObj obj, opsFor st r rest.head? with
-    | some o, some (ops, _, _) => (st, readLines st.enc ops o)
+    | some o, some (ops, _, clocked) => (st, readLines st.enc clocked ops o)
     | _, _ => (st, ["bad-input"])
   | ["crdt.rt.same", _, _, _, _] => (st, ["ok"])
   | "crdt.rt.cursor" :: r :: obj :: pos :: mv :: rest =>
